@@ -72,6 +72,15 @@ def apply_op(g, op):
             g.add_fully_connected_nodes(list(op[1]), list(op[2]))
         elif k == 'delete_node':
             (g.remove_node if op[2] else g.delete_node)(op[1])
+        elif k == 'set_attr':
+            # a node attribute edited IN PLACE through the Node handle (no graph mutator is called): for the model this is the
+            # in-place form of replace_node; every cached / derived view must follow it all the same
+            _, i, _new, _lag, _var, vt, m = op
+            node = g.get_node(i)
+            if vt is not None:
+                node.variable_type = VT[vt]
+            if m is not None:
+                node.meta = copy.deepcopy(m)
         elif k == 'replace_node':
             _, i, new, lag, var, vt, m = op
             kw = {}
@@ -162,7 +171,7 @@ def cq_op(op):
         return f'OAddFullyConnected {C.cq_names(op[1])} {C.cq_names(op[2])}'
     if k == 'delete_node':
         return f'ODeleteNode {n(op[1])}'
-    if k == 'replace_node':
+    if k in ('replace_node', 'set_attr'):
         _, i, new, lag, var, vt, m = op
         vt_t = '(Some VUnspec)' if vt == 'DEFAULT' else C.cq_opt(C.cq_vtype, vt)
         return (f'OReplaceNode {n(i)} {C.cq_opt(n, new)} {C.cq_opt(C.cq_Z, lag)} {C.cq_opt(n, var)} '
@@ -369,6 +378,8 @@ class Gen:
         else:
             nv = rng.choice([2, 2, 3])
             self.vars = ['x', 'y', 'z'][:nv]
+            if rng.random() < 0.12:
+                self.vars = ['X2', 'X10', 'X9'][:nv]       # natural vs lexicographic order
             if rng.random() < 0.15:
                 self.vars[0] = rng.choice(['X 1', 'lag', 'v\n'])
             self.lags = [-2, -1, 0, 1, 2] if rng.random() < 0.5 else [-1, 0, 1]
@@ -428,6 +439,11 @@ class Gen:
                     [self.name() for _ in range(r.randint(0, 2))])
         if x < 0.29:
             return ('delete_node', self.name(), r.random() < 0.5)
+        if x < 0.315 and g.get_node_names():
+            i = r.choice(g.get_node_names())
+            if self.kind == 'Plain' and r.random() < 0.4:
+                return ('set_attr', i, None, None, None, r.choice([None, self.vt()]), self.meta() or {})
+            return ('set_attr', i, None, None, None, self.vt(), None)
         if x < 0.39:
             i = self.name()
             mode = r.random()
